@@ -53,6 +53,9 @@ func (fe *FE) emitOpts(ob *Obligation, noQuant bool) string {
 	for i, s := range fe.strOrder {
 		n := fe.strLits[s]
 		fmt.Fprintf(&sb, "(declare-const %s Str) ; %q\n(assert (= (strlen %s) %d))\n", n, truncate(s, 40), n, len(s))
+		if !strings.HasPrefix(s, "line ") {
+			fmt.Fprintf(&sb, "(assert (= (fmtline %s) (- 1)))\n", n)
+		}
 		_ = i
 	}
 	if len(fe.strOrder) > 1 {
@@ -222,7 +225,11 @@ func solveAll(fes []*FE, outDir string, timeout, workers int, second bool) {
 				if j.ob.Smoke {
 					to = 2
 				}
-				r := race(file, to, "")
+				// fast path: one solver with a short limit; the full portfolio only when it does not decide
+				r := race(file, 2, "z3-new")
+				if r.res != "unsat" && r.res != "sat" {
+					r = race(file, to, "")
+				}
 				j.ob.Result, j.ob.Solver, j.ob.Seconds, j.ob.File = r.res, r.solver, r.secs, file
 				if r.res == "sat" {
 					j.ob.Model = r.out
